@@ -192,7 +192,8 @@ func (m *ModelServer) AcknowledgePublication(_ context.Context, request *traits.
 		}),
 	)
 
-	if err == alreadyAcknowledged && request.AllowAcknowledged {
+	// the collection wraps the error returned by the check, so test what the check recorded
+	if err != nil && acknowledgedPub != nil && request.AllowAcknowledged {
 		return acknowledgedPub, nil
 	}
 
